@@ -187,7 +187,7 @@ def main():
             "enable": "RUSTFLAGS='--cfg cucumber_verif' via /verif/harness/.cargo/config.toml "
                       "(the harness has a path dependency on /repo and is rebuilt by every check)",
             "baseline_off_cmd": "cd /repo && cargo test --workspace --no-fail-fast --offline",
-            "source_commits": ["8cd4e4c", "fe89a36", "41a32ac"],
+            "source_commits": ["8cd4e4c", "fe89a36", "41a32ac", "e20061a"],
             "add_only": True,
         },
         "engines": [
